@@ -119,6 +119,8 @@ pub struct Cfg {
     pub tiny: bool,
     /// wall-clock budget of the whole process in seconds (new cases are not started after it)
     pub budget_s: f64,
+    /// multiplier on every randomised stage's case count (slow flavours run a fraction of the tier's workload)
+    pub scale: f64,
     pub started: Instant,
     /// shard i of n (used by miri/asan process sharding): only indices idx % n == i
     pub shard: (u64, u64),
@@ -134,6 +136,9 @@ impl Cfg {
     }
     /// number of cases: (tiny, quick, thorough)
     pub fn n(&self, tiny: u64, quick: u64, thorough: u64) -> u64 {
+        ((self.n_unscaled(tiny, quick, thorough) as f64 * self.scale) as u64).max(1)
+    }
+    fn n_unscaled(&self, tiny: u64, quick: u64, thorough: u64) -> u64 {
         if self.tiny {
             if self.quick() {
                 tiny
@@ -769,6 +774,9 @@ where
         watch.done.store(true, Ordering::Relaxed);
     });
     let mut m = merged.into_inner().unwrap();
+    if !cfg.tiny && cfg.only.is_none() {
+        eprintln!("STAGE-TIME property={} profile={} stage={} cases={} evaluations={} wall_s={:.1}", cfg.prop, cfg.profile, stage, n, m.evaluations, t0.elapsed().as_secs_f64());
+    }
     m.add(&format!("stage.{}.cases", stage), m.evaluations);
     if truncated.load(Ordering::Relaxed) {
         m.notes.push(format!(
